@@ -145,10 +145,10 @@ import types as _types  # noqa: E402
 for _n in ('loki', 'loki.expression', 'loki.expression.operations'):      # map_sum imports ParenthesisedMul lazily
     _sys.modules.setdefault(_n, _types.ModuleType(_n))
 _sys.modules['loki.expression.operations'].ParenthesisedMul = ParenthesisedMul
-LEVEL = {'Leaf': ATOM, 'IntLiteral2': ATOM, 'Sum': PREC_SUM, 'Product': PREC_PRODUCT, 'NegProduct': PREC_PRODUCT, 'Quotient': PREC_PRODUCT,
+LEVEL = {'Leaf': ATOM, 'IntLiteral2': ATOM, 'Sum': PREC_SUM, 'Product': PREC_PRODUCT, 'NegProduct': PREC_PRODUCT, 'NegSum': PREC_PRODUCT, 'NegQuotient': PREC_PRODUCT, 'Quotient': PREC_PRODUCT,
          'Power': PREC_POWER, 'FloorDiv': PREC_PRODUCT, 'ParenthesisedAdd': ATOM, 'ParenthesisedMul': ATOM,
          'ParenthesisedDiv': ATOM, 'ParenthesisedPow': ATOM}
-CLS = {'Leaf': pmbl.Leaf, 'IntLiteral2': IntLiteral, 'Sum': Sum, 'Product': Product, 'NegProduct': Product, 'Quotient': Quotient, 'Power': Power,
+CLS = {'Leaf': pmbl.Leaf, 'IntLiteral2': IntLiteral, 'Sum': Sum, 'Product': Product, 'NegProduct': Product, 'NegSum': Product, 'NegQuotient': Product, 'Quotient': Quotient, 'Power': Power,
        'FloorDiv': pmbl.FloorDiv, 'ParenthesisedAdd': ParenthesisedAdd, 'ParenthesisedMul': ParenthesisedMul,
        'ParenthesisedDiv': ParenthesisedDiv, 'ParenthesisedPow': ParenthesisedPow}
 CHILD_KINDS = ['Leaf', 'IntLiteral2', 'Sum', 'Product', 'NegProduct', 'Quotient', 'Power', 'ParenthesisedAdd', 'ParenthesisedMul',
@@ -209,8 +209,9 @@ def make_child(kind, tag):
         return o
     if kind == 'IntLiteral2':
         o.value, o.kind_attr, o.den = 2, None, z3.IntVal(2)
-    if kind == 'NegProduct':
-        inner = make_child('Leaf', tag + '_x')
+    if kind in ('NegProduct', 'NegSum', 'NegQuotient'):
+        # Product((-1, x)) with x a leaf, a sum or a quotient (map_sum hands x itself to rec)
+        inner = make_child({'NegProduct': 'Leaf', 'NegSum': 'Sum', 'NegQuotient': 'Quotient'}[kind], tag + '_x')
         o.children = (-1, inner)
         o.den = -inner.den
         o.pure = z3.BoolVal(True)
@@ -240,7 +241,7 @@ class MapperSelf:
             inner = '(%s)%s(%s)' % (a, expr.bracketed_op, b)
             return '(%s)' % inner if truth(mk_bool(as_int_term(prec) > lvl)) else inner
         p = as_int_term(prec)
-        own = glevel(lvl, expr.pure if lvl == PREC_PRODUCT and expr.kind in ('Product', 'NegProduct') else (
+        own = glevel(lvl, expr.pure if lvl == PREC_PRODUCT and expr.kind in ('Product', 'NegProduct', 'NegSum', 'NegQuotient') else (
             z3.BoolVal(False) if expr.kind in ('Quotient', 'FloorDiv') else None))
         top = z3.If(p > lvl, L_ATOM, own) if lvl != ATOM else z3.IntVal(L_ATOM)
         return REG[0].new(expr.den, top, expr.kind + ':' + expr.tag)
@@ -389,7 +390,8 @@ class Parser:
             # following mult-operand chain up to the next additive operator
             self.i += 1
             v = self.expr(12)
-            return Val(-v.den, z3.IntVal(L_ADD) if False else v.top, raw=None)
+            self.need(v, L_MULDIV, 'operand of a sign must bind tighter than + - (%s)' % v.raw)
+            return Val(-v.den, v.top, raw=None)
         if t in self.reg.ops:
             self.i += 1
             den, top, what = self.reg.ops[t]
@@ -542,7 +544,8 @@ def specs(tier='quick'):
             m for m in all_methods if m not in own and own and m in ('map_quotient', 'map_product', 'map_parenthesised_pow'))
         seen.add(key)           # same class attributes => same behaviour of the methods that are inherited unchanged
         for method in methods:
-            kinds = CHILD_KINDS + (list(BRACKETED) if method in ('map_quotient', 'map_product', 'map_power') else [])
+            kinds = CHILD_KINDS + (list(BRACKETED) if method in ('map_quotient', 'map_product', 'map_power') else []) + (
+                ['NegSum', 'NegQuotient'] if method == 'map_sum' else [])
             for a, b in itertools.product(kinds, kinds):
                 if (a in BRACKETED or b in BRACKETED) and not ({a, b} <= set(BRACKETED) | {'Leaf', 'Sum'}):
                     continue
